@@ -116,7 +116,9 @@ def check_case(name, mod, x, fopts, cls, viols):
                 x, fopts, f, o_vf[1], x, v), {'format': f, 'validate_format': o_vf[1]})
     o_fv = C.outcome(mod.format, v, **fopts)
     if o_fv[0] != 'ok' or o_fv[1] != f:
-        add('C-presentation-dependent', 'format(%r, %r) = %r but format(validate(...) = %r) = %r' % (
+        bare = lambda t: ''.join(ch for ch in t if ch.isalnum()).upper()  # noqa: E731
+        how = 'input-canonical-up-to-separators' if bare(x) == bare(v) else 'input-in-another-representation'
+        add('C-presentation-dependent|' + how, 'format(%r, %r) = %r but format(validate(...) = %r) = %r' % (
             x, fopts, f, v, o_fv[1] if o_fv[0] == 'ok' else o_fv[1]), {'format': f, 'format_of_validated': C.jsonable(o_fv)})
     return 4, f, v
 
@@ -138,6 +140,7 @@ def work(shard, tier):
             b = C.synth_boundaries(name, rng, k=1 if tier == 'quick' else 4)
             nums = nums + rng.sample(b, min(len(b), 60 if tier == 'quick' else 600))
         nums = nums + C.synth_field_extremes(name, rng, k=1 if tier == 'quick' else 3, raw=False, cap=150 if tier == 'quick' else 2000)[:200 if tier == 'quick' else 3000]
+        nums = nums + C.synth_table_boundaries(name, rng, cap=150 if tier == 'quick' else 3000)
         fsets = format_optsets(name, mod, nums[0])
         for v0 in nums:
             variants = list(gen.decorations(v0, name, tier, rng))
